@@ -126,6 +126,8 @@ JustShapeDecideByPrepare(m) ==
   IF m.ph = "DECIDE" THEN m.j # NoJ /\ m.j.ph \in {"COMMIT", "PREPARE"} /\ m.j.v = m.v ELSE JustShapeOrig(m)
 \* DECIDE accepted without any justification
 JustShapeDecideNoJ(m) == IF m.ph = "DECIDE" THEN TRUE ELSE JustShapeOrig(m)
+\* only the chain itself becomes a candidate, not its quorum-backed prefixes (the defect repaired by "fix: every quorum-backed prefix ...")
+AddCandOnlyFull(cs, c) == cs \cup {c}
 \* receiveOne does not compare the base of a vote with the base of the own input
 WrongBaseNever(m, inp) == FALSE
 ChainsForkX == {<<0>>, <<0, 1>>, <<0, 3>>, <<0, 5>>}   \* <<0, 5>>: right base, proposed by no honest participant
